@@ -154,7 +154,7 @@ func genGff(rng *rand.Rand) Rec {
 	switch rng.Intn(6) {
 	case 0:
 		s := coord(rng)
-		return Rec{"kind": "region", "name": ints(word(rng, 1, 5, "")), "start": s, "end": s + 1 + rng.Intn(1000)}
+		return Rec{"kind": "region", "name": ints(word(rng, 1, 5, "")), "start": s, "end": s + 1 + []int{0, rng.Intn(1000), rng.Intn(1000)}[rng.Intn(3)]}
 	case 1:
 		mt := 1 + rng.Intn(3)
 		alpha := []string{"", "ACGTN-", "ACGUN-", "ACDEFGHIKLMNPQRSTVWY*-"}[mt]
@@ -176,7 +176,7 @@ func genGff(rng *rand.Rand) Rec {
 		comments = field(rng)
 	}
 	return Rec{"kind": "feature", "seqname": ints(field(rng)), "source": ints(field(rng)), "feature": ints(field(rng)),
-		"start": s, "end": s + 1 + rng.Intn(5000), "score": ints(score), "strand": int("+-."[rng.Intn(3)]),
+		"start": s, "end": s + 1 + []int{0, 0, 1, rng.Intn(5000), rng.Intn(5000)}[rng.Intn(5)], "score": ints(score), "strand": int("+-."[rng.Intn(3)]),
 		"frame": int(".012"[rng.Intn(4)]), "attrs": attrs, "comments": ints(comments)}
 }
 
@@ -279,6 +279,14 @@ func damage(rng *rand.Rand, format string, text []byte) ([]byte, string) {
 		"255,128", "0,0", "1,2,3,4", ",", "1,", ",1", "1,,2", "0,0,0", "300,1,1", "1,2,x",
 		// bytes that are white space as Latin-1 runes (U+0085, U+00A0) but not for bytes.TrimSpace, and other odd blanks
 		"gene_id\xa0", "g\x85", "\xa0", "a \xa0b", "t\x0bv", "k\x0c", "x \x85;y\xa0"}
+	if bytes.HasPrefix(lines[li], []byte("##")) && rng.Intn(2) == 0 {
+		// directive lines (##sequence-region name start end, ##DNA name, ...) are separated by blanks
+		ws := bytes.Split(lines[li], []byte{' '})
+		wi := rng.Intn(len(ws))
+		ws[wi] = []byte(toks[rng.Intn(len(toks))])
+		lines[li] = bytes.Join(ws, []byte{' '})
+		return bytes.Join(lines, []byte{'\n'}), "replace directive token"
+	}
 	switch rng.Intn(9) {
 	case 0:
 		return t[:rng.Intn(len(t))], "truncate"
